@@ -217,6 +217,19 @@ def register(reg):
         ],
         raises={}, replay=replay_dec,
     )
+    # last_newline: the earlier of the last LF and the last CR (each "the end" when absent) -- what _parse_data's hold-back rests on
+    reg.contract(
+        "werkzeug/sansio/multipart.py:MultipartDecoder.last_newline#verify", prop="C01,C02", self_model=MD,
+        params={"data": "bytes"}, returns="int", modifies=[],
+        ensures=["0 <= result and result <= len(data)",
+                 # nothing behind the position it returns is both an LF-free and a CR-free ... precisely: every LF and every
+                 # CR that is the last of its kind lies at or behind the result, and the result is one of them (or the end)
+                 "implies(data.rfind(b'\\n') != -1, result <= data.rfind(b'\\n'))",
+                 "implies(data.rfind(b'\\r') != -1, result <= data.rfind(b'\\r'))",
+                 "result == len(data) or result == data.rfind(b'\\n') or result == data.rfind(b'\\r')",
+                 "implies(data.rfind(b'\\n') == -1 and data.rfind(b'\\r') == -1, result == len(data))"],
+        raises={},
+    )
     # a second contract on the same function, kept apart so that call sites (next_event) do not carry its string-search terms
     reg.contract(
         "werkzeug/sansio/multipart.py:MultipartDecoder._parse_data#retention", prop="C01,C02", self_model=MD,
